@@ -204,7 +204,7 @@ static size_t unhex(const char *s, uint8_t *out, size_t cap) {
 }
 static void pr_mac(const uint8_t *m) { hexout(m, 6); }
 
-static void pr_led(void) { printf(" live=%ld bytes=%ld", g_live, g_bytes); }
+static void pr_led(void) { printf(" live=%ld bytes=%ld allocs=%ld sends=%ld", g_live, g_bytes, g_allocs, g_sends); }
 
 static void pr_autom(vctx *v) {
     automata *m = v->mappingAutomata, *s = v->sessionAutomata, *e = v->enumerationAutomata;
